@@ -990,7 +990,22 @@ pub fn panic_key(p: &PanicInfo) -> String {
     {
         "header-non-ascii".into()
     } else {
-        p.key()
+        // numbers in the message (ids, lengths) are not part of the cause
+        let k = p.key();
+        let mut out = String::new();
+        let mut in_digits = false;
+        for c in k.chars() {
+            if c.is_ascii_digit() {
+                if !in_digits {
+                    out.push('N');
+                }
+                in_digits = true;
+            } else {
+                in_digits = false;
+                out.push(c);
+            }
+        }
+        out
     }
 }
 
